@@ -14,7 +14,7 @@ SHARDS = {"quick": 4, "thorough": 16}
 WATCHDOG = {"quick": 900, "thorough": 3000}
 SOAK = {"thorough": ['tests/stress/test_equistress.py', 'tests/strength']}      # contract soak (pv/contracts_more.py) under the repository's own tests
 REQUIRED_CLASSES = {t: ["tensor:uniaxial", "tensor:pure_shear", "tensor:hydrostatic", "tensor:repeated_eigenvalues", "tensor:zero",
-                        "tensor:generic", "tensor:nearly_hydrostatic", "magnitude<1e-6", "magnitude>1e6", "tensor:rotated_hydrostatic", "tensor:shear_only_in_plane_12", "tensor:shear_only_in_plane_13", "tensor:shear_only_in_plane_23", "input:scalar", "input:columns", "input:integer_typed_columns", "sign:near_tie_not_judged",
+                        "tensor:generic", "tensor:nearly_hydrostatic", "magnitude<1e-6", "magnitude>1e6", "magnitude:beyond_1e100", "tensor:rotated_hydrostatic", "tensor:shear_only_in_plane_12", "tensor:shear_only_in_plane_13", "tensor:shear_only_in_plane_23", "input:scalar", "input:columns", "input:integer_typed_columns", "sign:near_tie_not_judged",
                         "sign:exact_tie_unrotated"]
                     for t in ("quick", "thorough")}
 REQUIRED_MONITORS = ["rotation_invariant:eigen_based", "rotation_invariant:mises^2", "homogeneous", "definition:mises", "definition:tresca",
@@ -51,8 +51,8 @@ def generate(ctx):
 
 
 def _tensor(kind, rng):
-    # stresses in any unit: usually 1e-3 .. 1e4, in a fifth of the cases from 1e-12 (e.g. normalised fields) to 1e9 (Pa)
-    scale = float(10 ** rng.uniform(-3, 4)) if rng.random() < 0.8 else float(10 ** rng.uniform(-12, 9))
+    # stresses in any unit: usually 1e-3 .. 1e4, in a fifth of the cases any magnitude from 1e-200 to 1e200 ("any positive factor")
+    scale = float(10 ** rng.uniform(-3, 4)) if rng.random() < 0.8 else float(10 ** rng.uniform(-200, 200))
     if kind == "uniaxial":
         w = np.array([scale * rng.choice([-1, 1]), 0.0, 0.0])
     elif kind == "pure_shear":
@@ -129,6 +129,14 @@ def run_case(case, ctx):
     ctx.check("finite_and_real", finite, observed={"unrotated": a, "rotated": b}, tags=mech, detail={"tensor": T, "rotated": TR})
     if not finite:
         return
+    pr_raw = np.asarray(EQ.principals(*_comp(T)), dtype=float)
+    # beyond 1e+-100 the monitors' own squares would under- or overflow: every quantity is homogeneous of degree one, so what
+    # was observed is divided by a power of two (exact) and judged at unit magnitude
+    nrm = 2.0 ** round(math.log2(sc)) if (sc > 0 and (sc < 1e-100 or sc > 1e100)) else 1.0
+    if nrm != 1.0:
+        ctx.tag("magnitude:beyond_1e100")
+        a, b, s = ({k: v / nrm for k, v in d_.items()} for d_ in (a, b, s))
+        ev, sc, pr_raw = ev / nrm, sc / nrm, pr_raw / nrm
     tol_e = 1e-10 * sc + 1e-300
     # near ties: the sign legitimately depends on rounding
     wmax, wmin, tr = ev[-1], ev[0], float(np.sum(ev))
@@ -151,7 +159,7 @@ def run_case(case, ctx):
     mises_def = math.sqrt(0.5 * ((ev[0] - ev[1]) ** 2 + (ev[1] - ev[2]) ** 2 + (ev[0] - ev[2]) ** 2))
     ctx.check("definition:mises", abs(a["mises"] ** 2 - mises_def ** 2) <= 1e-12 * sc * sc + 1e-300, observed=a["mises"], expected=mises_def)
     ctx.check("definition:tresca", abs(a["tresca"] - (ev[2] - ev[0])) <= tol_e, observed=a["tresca"], expected=ev[2] - ev[0])
-    pr = np.asarray(EQ.principals(*_comp(T)), dtype=float)
+    pr = pr_raw
     ctx.check("definition:principals", bool(np.all(np.abs(np.sort(pr) - ev) <= tol_e)) and abs(a["max_principal"] - ev[2]) <= tol_e and abs(
         a["min_principal"] - ev[0]) <= tol_e, observed=pr, expected=ev)
     amp = wmax if abs(wmax) >= abs(wmin) else wmin
